@@ -587,8 +587,7 @@ class CSSParser:
             if pseudo == ':root':
                 sel.flags |= ct.SEL_ROOT
             elif pseudo == ':defined':
-                sel.flags |= ct.SEL_DEFINED
-                is_html = True
+                sel.selectors.append(CSS_DEFINED)
             elif pseudo == ':scope':
                 sel.flags |= ct.SEL_SCOPE
             elif pseudo == ':empty':
@@ -904,8 +903,7 @@ class CSSParser:
     def parse_pseudo_dir(self, sel: _Selector, m: Match[str], has_selector: bool) -> bool:
         """Parse pseudo direction."""
 
-        value = ct.SEL_DIR_LTR if util.lower(m.group('dir')) == 'ltr' else ct.SEL_DIR_RTL
-        sel.flags |= value
+        sel.selectors.append(CSS_DIR_LTR if util.lower(m.group('dir')) == 'ltr' else CSS_DIR_RTL)
         has_selector = True
         return has_selector
 
@@ -991,8 +989,6 @@ class CSSParser:
                     has_selector = self.parse_pseudo_lang(sel, m, has_selector)
                 elif key == 'pseudo_dir':
                     has_selector = self.parse_pseudo_dir(sel, m, has_selector)
-                    # Currently only supports HTML
-                    is_html = True
                 elif key == 'pseudo_close':
                     if not has_selector:
                         if not is_forgive:
@@ -1144,6 +1140,11 @@ class CSSParser:
 # Precompile CSS selector lists for pseudo-classes (additional logic may be required beyond the pattern)
 # A few patterns are order dependent as they use patterns previous compiled.
 
+# `:defined` and `:dir()` only apply to HTML. Like the HTML-only patterns below they are selector lists of their own
+# that carry the HTML flag, so the flag never spreads to the selector list they are used in.
+CSS_DEFINED = ct.SelectorList([_Selector(flags=ct.SEL_DEFINED).freeze()], False, True)
+CSS_DIR_LTR = ct.SelectorList([_Selector(flags=ct.SEL_DIR_LTR).freeze()], False, True)
+CSS_DIR_RTL = ct.SelectorList([_Selector(flags=ct.SEL_DIR_RTL).freeze()], False, True)
 # CSS pattern for `:link` and `:any-link`
 CSS_LINK = CSSParser(
     'html|*:is(a, area)[href]'
